@@ -184,6 +184,24 @@ def run(rep, tier):
                 rep.note_inconclusive('ber_exp (M): violable obligation %s at %s not reproduced on the realisable grid' % (p['msg'], p['site']))
             for b in rb['bad']:
                 rep.note_inconclusive('ber_exp (M): %s (abstract approx_exp value %s) not reproduced on the realisable grid' % (b['kind'], b.get('Y')))
+    rs = sampler_z_scen()
+    rep.extra.setdefault('mir_hashes', {}).update(rs['mir_hash'])
+    rep.states += rs['paths']; rep.transitions += rs['steps']; rep.queries += rs['queries']; rep.solver_s += rs['solver_s']
+    rep.parts['sampler_z'] = {k: rs[k] for k in ('paths', 'returned', 'checks')}
+    rep.sample({'engine': 'M', 'function': 'sampler_z', 'query': 'per returning path (<= 2 trips): bytes drawn 9/1/7, arguments of BerExp, control flow and returned value equal Algorithm 15; |mu| <= 2^14, sigma in [1.2, 1.8205]',
+                'paths': rs['paths'], 'findings': len(rs['bad'])})
+    rep.oblige(rs['checks'] - len(rs['bad']) - len(rs['panics'])); rep.oblige(len(rs['bad']) + len(rs['panics']), ok=False)
+    if rs['returned'] == 0:
+        rep.note_inconclusive('vacuity: sampler_z scenario has no returning path')
+    if rs['bad'] or rs['panics']:
+        from .c09 import sampler_z_battery
+        what = '; '.join([b['kind'] for b in rs['bad']][:2] + [p['msg'] for p in rs['panics']][:1])
+        if not sampler_z_battery(rep, what):
+            rep.note_inconclusive('sampler_z (M): %s - not reproduced natively on the reference battery' % what)
+    else:
+        from .c09 import sampler_z_battery
+        sampler_z_battery(rep, 'reference battery (validation)')       # 60 native runs against the specification-level reference: validated traces
+    rep.assumptions.append('sampler_z (M): |mu| <= 2^14 (beyond that `floor(mu) as i16` saturates and the final i16 addition can overflow: outside the claim); base_sampler / ber_exp / the generator return arbitrary values')
     rep.assumptions.append('ber_exp (M): approx_exp is summarised by an arbitrary value in [1, 2^63]; that range on the domain is what the Kani totality harness establishes for the real composition')
     r = approx_exp_scen()
     rep.extra.setdefault('mir_hashes', {}).update(r['mir_hash'])
@@ -214,3 +232,112 @@ def run(rep, tier):
     else:
         rep.oblige(1, ok=False)
         rep.note_inconclusive('approx_exp: %s' % r['verdict'])
+
+
+# ---------------------------------------------------------------------------------------------- sampler_z: the loop body (up to two trips)
+SIGMA_MAX = 1.8205
+INV_2SIGMA_MAX_SQ = 1.0 / (2.0 * SIGMA_MAX * SIGMA_MAX)
+
+
+def sampler_z_scen(max_trips=2):
+    """real MIR of sampler_z with base_sampler / ber_exp / the generator replaced by arbitrary results (their own checks are
+    above); per returning path: the value returned, the arguments handed to ber_exp and the bytes drawn are those of
+    Algorithm 15 (SamplerZ) in the reference implementation's operation order."""
+    import re as _re
+    P = prog()
+    ex = new_exec(P)
+    F = lambda v: z3.FPVal(v, z3.Float64())
+    mu = ex.new_input('mu', 'f64'); sigma = ex.new_input('sigma', 'f64'); sigmin = ex.new_input('sigmin', 'f64')
+    ex.assume(z3.And(z3.fpGEQ(mu.t, F(-16384.0)), z3.fpLEQ(mu.t, F(16384.0)), z3.fpGEQ(sigma.t, F(1.2)), z3.fpLEQ(sigma.t, F(SIGMA_MAX)),
+                     z3.fpGEQ(sigmin.t, F(1.2)), z3.fpLEQ(sigmin.t, sigma.t)))
+    draws = []       # per path kept in st.env
+    cnt = {'n': 0}
+
+    def ov_gen(ex, st, fr, args, info):
+        raw = info['raw']
+        m = _re.search(r'gen::<\[u8; (\d+)\]>', raw)
+        cnt['n'] += 1
+        if m:
+            k = int(m.group(1))
+            v = Seq('arr', [ex.new_input('rnd%d_%d' % (len(st.env.get('draws', ())), i), 'u8') for i in range(k)])
+        elif 'gen::<u8>' in raw:
+            k = 1
+            v = ex.new_input('rnd%d_0' % len(st.env.get('draws', ())), 'u8')
+        else:
+            raise Unsupported('rng.gen of ' + raw)
+        st.env['draws'] = st.env.get('draws', ()) + ((k, v),)
+        return v
+
+    def ov_base(ex, st, fr, args, info):
+        t = len(st.env.get('z0s', ()))
+        if t >= max_trips:
+            from ..mirsym.interp import PathEnd
+            st.env['cut'] = True
+            raise PathEnd()
+        z0 = ex.new_input('z0_%d' % t, 'i16')
+        ex.assume(z3.And(z0.t >= 0, z0.t <= 18))
+        st.env['z0s'] = st.env.get('z0s', ()) + ((z0, args[0]),)
+        return z0
+
+    def ov_ber(ex, st, fr, args, info):
+        t = len(st.env.get('bers', ()))
+        acc = ex.new_input('accept_%d' % t, 'bool')
+        st.env['bers'] = st.env.get('bers', ()) + ((args[0], args[1], args[2], acc),)
+        return acc
+    ex.over.update({'Rng::gen': ov_gen, 'base_sampler': ov_base, 'ber_exp': ov_ber})
+    # specification side (reference implementation's order of floating-point operations)
+    isigma = fbinop('Div', V(1.0, 'f64'), sigma)
+    dss_forms = [fbinop('Mul', fbinop('Mul', V(0.5, 'f64'), isigma), isigma), fbinop('Mul', V(0.5, 'f64'), fbinop('Mul', isigma, isigma))]
+    s_f = V(z3.fpRoundToIntegral(z3.RTN(), mu.t), 'f64')
+    r_f = fbinop('Sub', mu, s_f)
+    ccs_forms = [fbinop('Mul', sigmin, isigma), fbinop('Mul', isigma, sigmin)]
+    out = {'ret': 0, 'bad': [], 'checks': 0}
+
+    def on_ret(ex, st, rv):
+        out['ret'] += 1
+        z0s = st.env.get('z0s', ()); bers = st.env.get('bers', ()); dr = st.env.get('draws', ())
+        trips = len(bers)
+        out['checks'] += 1
+        # bytes drawn: per trip 9 (base sampler), 1 (sign), 7 (BerExp), in that order
+        sizes = [k for k, _ in dr]
+        if sizes != [9, 1, 7] * trips or len(z0s) != trips:
+            out['bad'].append({'kind': 'random bytes are not drawn as 9, 1, 7 per trip (%s)' % sizes}); return
+        for t in range(trips):
+            z0, arg9 = z0s[t]
+            xarg, ccsarg, b7, acc = bers[t]
+            if arg9 is not dr[3 * t][1] or b7 is not dr[3 * t + 2][1]:
+                out['bad'].append({'kind': 'base_sampler / ber_exp do not receive the bytes just drawn (trip %d)' % t}); return
+            bbyte = dr[3 * t + 1][1]
+            b = cast_int(binop('BitAnd', bbyte, mkint(1, 'u8')), 'i16')
+            z = binop('Add', b, binop('Mul', binop('Sub', binop('Shl', b, mkint(1, 'i32')), mkint(1, 'i16')), z0))
+            zr = fbinop('Sub', int_to_float(z), r_f)
+            okx = False
+            for dss in dss_forms:
+                xs = fbinop('Sub', fbinop('Mul', fbinop('Mul', zr, zr), dss), fbinop('Mul', int_to_float(binop('Mul', z0, z0)), V(INV_2SIGMA_MAX_SQ, 'f64')))
+                if xarg.t.eq(xs.t): okx = True
+            okc = any(ccsarg.t.eq(c.t) for c in ccs_forms)
+            out['checks'] += 2
+            if not okx:
+                out['bad'].append({'kind': 'the x handed to BerExp is not ((z - r)^2) * dss - z0^2 / (2 sigma_max^2) in the reference order (trip %d)' % t, 'need_solver': True})
+            if not okc:
+                out['bad'].append({'kind': 'the ccs handed to BerExp is not sigma_min / sigma (trip %d)' % t, 'need_solver': True})
+            # control flow: this trip returned iff accept_t, earlier trips were rejected
+            last = t == trips - 1
+            out['checks'] += 1
+            ok, _ = ex.check(acc.t if not last else z3.Not(acc.t))
+            if ok:
+                out['bad'].append({'kind': 'control flow: trip %d %s although BerExp %s' % (t, 'continues' if not last else 'returns', 'accepted' if not last else 'rejected')})
+            if last:
+                si = float_to_int(s_f, 'i16')
+                want = binop('Add', z, si)
+                out['checks'] += 1
+                okv, m = ex.check((rv.t if not rv.conc else z3.BitVecVal(rv.t, 16)) != want.t)
+                if okv:
+                    out['bad'].append({'kind': 'returned value is not z + floor(mu)', 'model': {k: v for k, v in ex.model_inputs(m).items() if not k.startswith('rnd') or k.endswith('_0')}})
+    ex.on_return = on_ret
+    fn = P.by_key['sampler_z']
+    st = ex.start(fn, [mu, sigma, sigmin, temp_ref(Opaque('rng'))])
+    ex.explore(st)
+    return {'paths': ex.paths, 'queries': ex.nq, 'steps': ex.steps, 'solver_s': ex.solver_s, 'returned': out['ret'], 'bad': out['bad'][:5],
+            'checks': out['checks'] + sum(c[0] for c in ex.assert_sites.values()), 'panics': [{'msg': p['msg'], 'site': p['site']} for p in ex.panics[:3]],
+            'mir_hash': {'sampler_z': fn.hash}}
